@@ -284,7 +284,7 @@ def _pattern(a, b):
     if isinstance(a, bool) and isinstance(b, bool):
         return "inverted"
     if isinstance(a, int) and isinstance(b, int):
-        return "delta=%+d" % (b - a) if abs(b - a) <= 2 else "other-number"
+        return "off-by-one" if abs(b - a) == 1 else "other-number"
     if isinstance(a, str) and isinstance(b, str):
         if a.startswith(b):
             return "truncated"
@@ -333,9 +333,8 @@ def compare(prev, new, allow, written, stage, source):
                         clean[axis] = False
                 else:
                     clean[axis] = False
-                    touched = source.get((i, f"{axis}:{j}"), "queried" if wb else "unqueried")
-                    ident = {"mechanism": "size", "axis": word, "class": "changed", "touched": touched,
-                             "pattern": "decrease" if q < p else "increase", "border": pair[0] + pair[1] > 0}
+                    touched = source.get((i, f"{axis}:{j}"), "saved" if axis == "cw" else "queried" if wb else "unqueried")
+                    ident = {"mechanism": "size", "axis": word, "class": "changed", "touched": touched, "pattern": "decrease" if q < p else "increase"}
                 groups.setdefault(json.dumps(ident, sort_keys=True), (ident, []))[1].append((j, p, q, pair))
             for ident, items in groups.values():
                 j, p, q, pair = items[0]
@@ -378,7 +377,15 @@ def eval_case(case, info=None):
     info = info if info is not None else {}
     files = []
     try:
-        obs, exp, set_rows = build(case, "free")
+        try:
+            obs, exp, set_rows = build(case, "free")
+            subj, _, _ = build(case, q)
+        except Exception as e:  # noqa: BLE001 - every value used is inside its documented range
+            import traceback
+
+            where = traceback.extract_tb(e.__traceback__)[-1]
+            out.append(({"mechanism": "api-raises", "exc": type(e).__name__, "where": where.name}, f"building the case raised {type(e).__name__}: {str(e)[:160]} (in {where.name})"))
+            return out
         g_prev = geo(obs)
         info["g0"] = hashlib.sha1(json.dumps(g_prev, sort_keys=True).encode()).hexdigest()[:16]
         out += check_expected(g_prev, exp)
@@ -386,10 +393,11 @@ def eval_case(case, info=None):
         for i, e in exp.items():
             for k in e:
                 source[(i, "coords" if k.startswith("coords:") else k)] = "api-set"
-        subj, _, _ = build(case, q)
         post = q in ("all", "post")
         if post:
             gs = geo(subj)
+            if q == "all":  # values set after an earlier query must read back as set, too
+                out += [(i, d + " (the subject had been queried before the value was set)") for i, d in check_expected(gs, exp)]
             if gs != g_prev:
                 d = compare(g_prev, gs, allowances(obs), {}, "subject-vs-observer-twin", source)
                 out.append(({"mechanism": "subject-vs-observer", "stage": "live"}, "; ".join(x[1] for x in d)[:400] or "snapshots differ"))
